@@ -164,6 +164,26 @@ def run(ctx):
         ctx.case(('replay', tuple(map(tuple, seq))), nontrivial=nontriv,
                  sample={'sequence': label, 'all responses carried the requested source': True} if len(ctx.samples) < 4 and nontriv else None)
 
+    # 3a. form OBJECTS: request / add / request histories (spec/VFormObjects.tla)
+    ocfg = write_cfg(ctx.scratch / 'obj.cfg', dict(MaxLen=4, MaxTerms=3, AllowMutateFrozen=False, DoEmit=True),
+                     invariants=['Sound', 'FrozenMeansMemo', 'EmitBeh'])
+    ores = ctx.tlc('VFormObjects', ocfg, workers=1)
+    ncfg = write_cfg(ctx.scratch / 'obj_neg.cfg', dict(MaxLen=4, MaxTerms=3, AllowMutateFrozen=True, DoEmit=False),
+                     invariants=['Sound'])
+    ctx.expect_violation('VFormObjects', ncfg, 'Sound', workers=1)
+    behs = ores.recs('OBJ')
+    jobs = [{'base': b, 'beh': h} for h in behs for b in ('mass', 'mass2')]
+    orep = child(ctx, 'objects', {'universe': [], 'behaviours': jobs}, seed=0, tag='o')
+    for job, out in zip(jobs, orep['results']):
+        lab = '%s:%s' % (job['base'], ''.join('R' if s['a'] == 'req' else 'A' for s in job['beh']))
+        for k, st in enumerate(out):
+            if st['a'] == 'req' and not st['right']:
+                ctx.violation('stale-assembler-after-add base=%s history=%s' % (job['base'], lab.split(':')[1][:k + 1]),
+                              {'steps': out})
+                break
+        ctx.case(('object', lab), nontrivial=any(s['a'] == 'add' for s in job['beh']),
+                 sample={'object history': lab, 'outcomes': out} if lab.endswith('RAR') and job['base'] == 'mass' else None)
+
     # 3b. the TLC-generated forms of the C06/C01 generator (large universe): all same-key request pairs
     gcfg = write_cfg(ctx.scratch / 'gen13.cfg', dict(Dim=2, MaxTok=9, MaxStack=3, Rich=True, Poly=False), invariants=['TypeOK'])
     gres = ctx.tlc('VFormGen', gcfg, workers=4, simulate=40000 if not ctx.thorough else 200000, depth=14, seed=ctx.seed + 5)
